@@ -23,7 +23,9 @@ def task_tree(case, dry, rng, max_tasks):
     by_pos = {}
     for e in starts:
         by_pos.setdefault((e["obj"], e["field"]), set()).add(tuple(e["path"]))
-    cands = sorted(p for p, paths in by_pos.items() if len(paths) == 1)
+    # plain-fn resolvers of the static family ("sync" in the schema mirror) never wait on a gate
+    sync = {f for t in json.load(open(execcheck.SCHEMA))["types"].values() for f, d in t["fields"].items() if d.get("sync")}
+    cands = sorted(p for p, paths in by_pos.items() if len(paths) == 1 and p[1] not in sync)
     if not cands:
         return None
     chosen = cands if len(cands) <= max_tasks else sorted(rng.sample(cands, max_tasks))
